@@ -183,7 +183,8 @@ def evaluate(obs):
     how = spec.get('entry', 'future.cancel')
     fam = spec.get('family')
     stats = {'cancel_fired': 1 if obs.cancel_events else 0, 'cancelled_outcomes': 0, 'success_after_cancel': 0, 'fault_outcomes': 0,
-             'not_started_checked': 0, 'after_done_checked': 0, 'window_hits': len(obs.injector.window_hits) if obs.injector else 0}
+             'not_started_checked': 0, 'after_done_checked': 0, 'window_hits': len(obs.injector.window_hits) if obs.injector else 0,
+             'kbi_all_parked': 1 if (getattr(obs, 'kbi', None) or {}).get('all_parked') else 0}
     stats['entry_' + how] = 1
     nontrivial = False
     if obs.shutdown_exc is not None and not (how == 'with_kbi' and isinstance(obs.shutdown_exc, KeyboardInterrupt)):
@@ -236,7 +237,7 @@ def evaluate(obs):
             stats['not_started_checked'] += 1
         gate = (spec.get('plan') or {}).get('gate') or {}
         if (fam == 'kbi' and how in ('kbi_shutdown', 'kbi_exit') and spec.get('trigger') == 'immediate' and gate.get('after_cancel_begin')
-                and gate.get('match') == '/s3:'):
+                and gate.get('match') == '/s3:' and kbi is not None and kbi.get('all_parked')):
             # every request of every transfer was held at the gate from the start until the Ctrl-C had begun, and is only let go when
             # the process is quiescent again, i.e. after the interrupted shutdown has cancelled everything unfinished: apart from
             # the requests already begun (parked) and the abort of a multipart upload, NO further request of any transfer may begin
